@@ -256,7 +256,11 @@ KINDS = ["hex-mixed3", "quad9-mixed2", "tet10-mixed3", "hex-single", "quad-axi-m
          "quad8-disconnected-dual"]
 
 
-def random_bounds(rng, field, mesh, tag):
+STYLES = ["float", "callable", "and", "skip", "pointmask", "dofmask", "array-dim", "array-full", "or2", "three", "array-skip",
+          "mask-skip", "dofmask-skip", "update", "short-skip"]
+
+
+def random_bounds(rng, field, mesh, tag, force=None):
     import felupe as fem
     bounds = {}
     nb = int(rng.integers(1, 5))
@@ -269,6 +273,14 @@ def random_bounds(rng, field, mesh, tag):
         dim = f.dim
         style = str(rng.choice(["float", "callable", "and", "skip", "pointmask", "dofmask", "array-dim", "array-full", "or2", "three", "array-skip",
                                 "mask-skip", "dofmask-skip", "update"]))
+        force_short = False
+        if k == 0 and force is not None:
+            # the first boundary of a dictionary takes its kind from the caller's schedule (every kind occurs in every run, whatever the seed)
+            style, force_short = ("skip", True) if force == "short-skip" else (force, False)
+            if force_short and dim == 1:
+                fi = [i for i, g in enumerate(field.fields) if g.dim > 1][0]
+                f = field.fields[fi]
+                fm, dimm, dim = f.region.mesh, f.region.mesh.dim, f.dim
         kw = {}
         X = fm.points
         ax = int(rng.integers(0, dimm))
@@ -291,7 +303,7 @@ def random_bounds(rng, field, mesh, tag):
             if all(sk[:dim]):
                 sk[int(rng.integers(0, dim))] = 0
             kw["skip"] = tuple(sk)
-            if dim > 1 and rng.integers(0, 2):
+            if dim > 1 and (rng.integers(0, 2) or force_short):  # every other skip boundary of a process, starting with the first
                 # a tuple shorter than the field has components (documented, e.g. skip=(False, True) on a 3D field): the
                 # components it does not mention are not skipped
                 kw["skip"] = tuple(sk[: int(rng.integers(1, dim))])
@@ -361,7 +373,7 @@ def case_partition(kind, rep):
         attach_monitors(run)
         try:
             for trial in range(3 if run.tier == "quick" else 8):
-                bounds, feats = random_bounds(rng, field, mesh, "b")
+                bounds, feats = random_bounds(rng, field, mesh, "b", force=STYLES[(KINDS.index(kind) * 7 + rep * 3 + trial) % len(STYLES)])
                 if not bounds:
                     continue
                 run._label = "%s/%s" % (kind, "+".join(sorted(set(feats))))
